@@ -2,7 +2,7 @@
    Property theorems only: statement, exact, Print Assumptions.  Proofs: proofs/SyncP.v, proofs/C03P.v.
    Model: model/Sync.v (one room, one entity of node rows; which days a pull exchanges is an argument —
    the daily-log comparison is C09's subject). *)
-From DV Require Import Sync SyncObs SyncP Run_C03 C03P.
+From DV Require Import Sync SyncObs SyncP Run_C03 C03P C03Q.
 
 (* the statement at full strength, against the faithful model: for every history the model's own
    observation passes the property's oracle (every pull delivers what the source has; after two quiet
@@ -15,6 +15,13 @@ Theorem C03_refuted_collapse :
   spec_C03 witness_collapse (run_C03 witness_collapse) = false /\ known_C03 witness_collapse = [3].
 Proof. exact refuted_collapse. Qed.
 Print Assumptions C03_refuted_collapse.
+
+(* ... when a deletion record removes another version than the one it names
+   (NodeDeletionEntry::delete_all deletes whatever is stored) — class 2 *)
+Theorem C03_refuted_other_version :
+  spec_C03 witness_other_version (run_C03 witness_other_version) = false /\ known_C03 witness_other_version = [2].
+Proof. exact refuted_other_version. Qed.
+Print Assumptions C03_refuted_other_version.
 
 (* ... and whenever the log comparison skips a day on which the source holds a row the receiver
    needs (history-hash shortcut, stale daily hash) — class 4 *)
@@ -72,6 +79,28 @@ Theorem C03_converged_stays_quiet : forall dst src days,
   nodes (fst (fst (pull_replica false dst src days))) = nodes dst.
 Proof. exact converged_stays_quiet. Qed.
 Print Assumptions C03_converged_stays_quiet.
+
+(* (4) the per-pull clause of the oracle, on the model's own states: a pull from a source without
+   deletion records that selects the days a complete comparison selects delivers everything the
+   source has ([delivered] is the function spec_C03 applies to the implementation's dumps) *)
+Theorem C03_pull_delivers : forall dst src days,
+  tombs src = [] -> nodup_ids (nodes src) ->
+  days_cover days (needed_days dst src) = true ->
+  delivered src (fst (fst (pull_replica false dst src days))) = true.
+Proof. exact pull_delivers. Qed.
+Print Assumptions C03_pull_delivers.
+
+(* (5) the same version wins everywhere, whatever the order in which versions arrive: whatever
+   sequence of complete pulls leads from S (no deletion records) to a state in which the members
+   agree on row x, every member then holds the join — greatest (modification date, signature) — of
+   the versions of x the members held in S *)
+Theorem C03_winner_order_independent : forall S ops x p,
+  no_tombs S -> wf S -> pulls_in_range (length S) ops -> run_complete false S ops = true ->
+  (N.to_nat p < length S)%nat ->
+  (forall q r, find_node x (nodes (get q (run_sys false S ops))) = find_node x (nodes (get r (run_sys false S ops)))) ->
+  find_node x (nodes (get p (run_sys false S ops))) = gview S x.
+Proof. exact winner_order_independent. Qed.
+Print Assumptions C03_winner_order_independent.
 
 Example C03_nonvacuous :
   known_C03 example_ok = [] /\ no_deletes (c03_ops example_ok) = true /\ only_pulls (c03_final example_ok) = true /\
